@@ -526,7 +526,7 @@ class Tree:
         child nodes and return list of results."""
         res = []
         with self:
-            for n in self._root._children:  # pyright: ignore[reportOptionalIterable]
+            for n in self._root.children:  # `_children` is None after `clear()`
                 res.append(n.to_dict(mapper=mapper))
         return res
 
